@@ -319,6 +319,13 @@ func (c *siteCollector) observe(in ssa.Instruction, st *State, depth int) {
 					ok = types.Identical(a.Dyn, x.AssertedType)
 				}
 			}
+			if !ok && types.IsInterface(x.AssertedType) && types.Identical(x.X.Type(), x.AssertedType) {
+				// x.(I) with I the static type of x: the nil check the compiler
+				// inserts for a method value x.M — fails only for a nil interface
+				nn, def := c.nonNil(st, a)
+				c.judge(in, "assert", a.name()+".("+x.AssertedType.String()+")", nn, "method value of an interface value "+a.name()+" not known to be non-nil", st, def)
+				break
+			}
 			c.judge(in, "assert", a.name()+".("+x.AssertedType.String()+")", ok, "type assertion without comma-ok on a value of unknown dynamic type", st, false)
 		}
 	case *ssa.MapUpdate:
